@@ -157,14 +157,28 @@ type BytesCase struct {
 }
 
 // arEnd runs the Next() loop once more and reports how it ended.
-func arEnd(raw []byte) string {
-	ar, err := deb.LoadAr(bytes.NewReader(raw))
+func arEnd(raw []byte) string { return arEndOf(bytes.NewReader(raw), len(raw)) }
+
+// arEndWindow: the same bytes as a window (io.SectionReader) of a larger buffer that goes on with
+// a perfectly good archive behind the window's end.
+func arEndWindow(raw []byte) string {
+	front := []byte("JUNK-IN-FRONT-")
+	big := append(append(append([]byte{}, front...), raw...), renderAr([]ArMember{{Name: "behind-window", Mode: "100644", Data: []byte("not part of the input")}, {Name: "control.tar", Mode: "100644", Data: []byte("x")}})...)
+	return arEndOf(io.NewSectionReader(bytes.NewReader(big), int64(len(front)), int64(len(raw))), len(raw))
+}
+
+func arEndOf(src io.ReaderAt, n int) string {
+	ar, err := deb.LoadAr(src)
 	if err != nil {
 		return "LoadAr: " + err.Error()
 	}
-	for i := 0; i <= stepBound(len(raw)); i++ {
-		if _, err := ar.Next(); err != nil {
+	for i := 0; i <= stepBound(n); i++ {
+		e, err := ar.Next()
+		if err != nil {
 			return fmt.Sprintf("member %d: %v", i, err)
+		}
+		if b, rerr := io.ReadAll(e.Data); rerr != nil || int64(len(b)) != e.Size {
+			return fmt.Sprintf("member %d (%q): declares %d bytes, delivers %d (%v)", i, e.Name, e.Size, len(b), rerr)
 		}
 	}
 	return "no end"
@@ -202,6 +216,52 @@ func sparseControlTar(realsize int64) []byte {
 	return append(hdr, make([]byte, 1024)...)
 }
 
+func rawTarHeader(name string, typeflag byte, size int) []byte {
+	h := make([]byte, 512)
+	copy(h[0:], name)
+	copy(h[100:], "0000644\x00")
+	copy(h[108:], "0000000\x00")
+	copy(h[116:], "0000000\x00")
+	copy(h[124:], fmt.Sprintf("%011o\x00", size))
+	copy(h[136:], "00000000000\x00")
+	copy(h[148:], "        ")
+	h[156] = typeflag
+	copy(h[257:], "ustar\x0000")
+	sum := 0
+	for _, b := range h {
+		sum += int(b)
+	}
+	copy(h[148:], fmt.Sprintf("%06o\x00 ", sum))
+	return h
+}
+
+func rawTarEntry(name string, typeflag byte, content string) []byte {
+	out := append(rawTarHeader(name, typeflag, len(content)), content...)
+	for len(out)%512 != 0 {
+		out = append(out, 0)
+	}
+	return out
+}
+
+func paxRecord(key, value string) string {
+	n := len(key) + len(value) + 3
+	for {
+		s := fmt.Sprintf("%d %s=%s\n", n, key, value)
+		if len(s) == n {
+			return s
+		}
+		n = len(s)
+	}
+}
+
+// paxSparseEntry: a PAX extended header carrying GNU.sparse.* records (format 1.0) followed by a
+// regular entry whose stored data is just the sparse map "0\n" (no fragments).
+func paxSparseEntry(name string, realsize int64) []byte {
+	records := paxRecord("GNU.sparse.major", "1") + paxRecord("GNU.sparse.minor", "0") + paxRecord("GNU.sparse.name", name) + paxRecord("GNU.sparse.realsize", fmt.Sprint(realsize))
+	out := rawTarEntry("PaxHeaders.0/"+strings.TrimPrefix(name, "./"), 'x', records)
+	return append(out, rawTarEntry("GNUSparseFile.0/"+strings.TrimPrefix(name, "./"), '0', "0\n"+string(make([]byte, 510)))...)
+}
+
 func checkBytesCase(c BytesCase, r *Recorder) error {
 	members, err := checkArBytes(c.Raw, c.Eager)
 	if err == nil {
@@ -210,6 +270,9 @@ func checkBytesCase(c BytesCase, r *Recorder) error {
 			if again := arEnd(c.Raw); again != first {
 				return errf("[%s] iterating the same bytes again ends differently: %q vs %q", c.Note, first, again)
 			}
+		}
+		if w := arEndWindow(c.Raw); w != first {
+			return errf("[%s] the same bytes given as a window of a larger buffer end differently: %q, as a plain reader %q", c.Note, w, first)
 		}
 	}
 	nt := members > 0 || (len(c.Raw) >= 68 && string(c.Raw[:8]) == arMagic)
@@ -308,13 +371,26 @@ func genCorruptArchive(t *rapid.T) BytesCase {
 		// the hostile part sits one level down: the control member is a tar whose './control' entry
 		// is a sparse file (old GNU 'S' header: a few bytes stored, a huge logical size the tar reader
 		// fills with NULs it makes up), a directory, a symlink, or declares more data than there is
-		kind := rapid.SampledFrom([]string{"sparse-2^20", "sparse-2^40", "sparse-2^62", "dir", "symlink", "short"}).Draw(t, "tarkind")
+		kind := rapid.SampledFrom([]string{"sparse-2^20", "sparse-2^40", "sparse-2^62", "dir", "symlink", "short", "pax-sparse-control", "pax-sparse-other-before", "pax-sparse-other-after"}).Draw(t, "tarkind")
 		note = "tarlevel:" + kind
 		var ctl []byte
 		switch kind {
 		case "dir", "symlink":
 			tf := TarFile{Name: "./control", Type: kind, Link: "/etc/passwd"}
 			ctl, _ = buildTar([]TarFile{{Name: "./md5sums", Type: "reg", Content: []byte("x\n")}, tf})
+		case "pax-sparse-control", "pax-sparse-other-before", "pax-sparse-other-after":
+			// the PAX spelling of a sparse entry (GNU.sparse.* records, format 1.0): 1 KiB in the
+			// archive, 2^40 made-up bytes when read - as the control file itself, or as a file next to it
+			good := rawTarEntry("./control", '0', "Package: x\nVersion: 1\nArchitecture: all\nMaintainer: A <a@b.c>\nDescription: d\n")
+			switch kind {
+			case "pax-sparse-control":
+				ctl = paxSparseEntry("./control", 1<<40)
+			case "pax-sparse-other-before":
+				ctl = append(paxSparseEntry("./md5sums", 1<<40), good...)
+			default:
+				ctl = append(append([]byte{}, good...), paxSparseEntry("./triggers", 1<<40)...)
+			}
+			ctl = append(ctl, make([]byte, 1024)...)
 		case "short":
 			ctl, _ = buildTar([]TarFile{{Name: "./control", Type: "reg", Content: []byte("Package: x\nVersion: 1\nArchitecture: all\nMaintainer: A <a@b.c>\nDescription: d\n")}})
 			if len(ctl) > 600 {
@@ -405,7 +481,7 @@ func genCorruptArchive(t *rapid.T) BytesCase {
 
 var specC15Corrupt = Register(&Spec[BytesCase]{
 	Prop: "C15", Name: "corrupt",
-	Rule: "structured corruption of valid artefacts (C13 archives and C14 packages with stored/gzip members): one header column (name, mtime, uid, gid, mode, size, magic) of one member overwritten with negative, '+'-signed, huge, blank, non-numeric, NUL, hex or overflowing text; 2..4 numeric columns of one header made non-numeric at once; a member renamed '//' and later ones '/<offset>' (GNU long-name table and references); the control member replaced by a stored tar whose './control' entry is a GNU sparse file of 2^20 / 2^40 / 2^62 made-up bytes, a directory, a symlink, or cut short; one or both header magic bytes changed; truncation at a generated offset; a member duplicated (same or changed content), members reordered, a decoy control.*/data.* member with another extension (optionally a tar with 'Package: evil') inserted; a padding byte added or removed; a global magic byte flipped. Oracle: no panic; the Next() loop ends in io.EOF or an error within len/60+2 steps; every returned member sits behind a header ending 0x60 0x0A, has Size >= 0 and a reader delivering exactly Size bytes; deb.Load stays within a read budget and returns within 20 s; seven iterations / loads of the same bytes give the same outcome (the same error text, or the same extensions, control identity and member index). Non-trivial: >= 1 member returned or a first header parsed; distinct by bytes.",
+	Rule: "structured corruption of valid artefacts (C13 archives and C14 packages with stored/gzip members): one header column (name, mtime, uid, gid, mode, size, magic) of one member overwritten with negative, '+'-signed, huge, blank, non-numeric, NUL, hex or overflowing text; 2..4 numeric columns of one header made non-numeric at once; a member renamed '//' and later ones '/<offset>' (GNU long-name table and references); the control member replaced by a stored tar whose './control' entry is a GNU sparse file of 2^20 / 2^40 / 2^62 made-up bytes, a directory, a symlink, or cut short, or which carries - as ./control or next to it - a PAX-style sparse entry of 2^40 made-up bytes; one or both header magic bytes changed; truncation at a generated offset; a member duplicated (same or changed content), members reordered, a decoy control.*/data.* member with another extension (optionally a tar with 'Package: evil') inserted; a padding byte added or removed; a global magic byte flipped. Oracle: no panic; the Next() loop ends in io.EOF or an error within len/60+2 steps; every returned member sits behind a header ending 0x60 0x0A, has Size >= 0 and a reader delivering exactly Size bytes; deb.Load stays within a read budget and returns within 20 s; seven iterations / loads of the same bytes, and one through an io.SectionReader window of a larger buffer with a valid archive behind it, give the same outcome (the same error text, or the same extensions, control identity and member index). Non-trivial: >= 1 member returned or a first header parsed; distinct by bytes.",
 	Check: checkBytesCase,
 })
 
